@@ -1188,6 +1188,21 @@ pub async fn gen_fd(sim: &mut Sim, rng: &mut Prng, stats: &mut Stats, name: &str
     if rng.chance(1, 3) {
         spec.pred = Pred::MaxEven;
     }
+    let empty_mem = rng.chance(1, 7);
+    if empty_mem {
+        spec.pred = Pred::ValEq("a".to_string(), "x".to_string());
+    }
+    // a member wraps its sampling window, is declared dead (window reset), comes back with a faster
+    // cadence and falls silent again
+    let wrap = !empty_mem && rng.chance(1, 7);
+    if wrap {
+        spec.phi_num = 8;
+        spec.phi_den = 1;
+        spec.window = *rng.pick(&[2usize, 3]);
+        spec.initial_interval_ns = UNIT * 256;
+        spec.max_interval_ns = UNIT * 5120;
+        stats.bump("fd_cases_window_wraps_then_comeback");
+    }
     // a cadence just above max_interval: every interval must be discarded as a sample, so the
     // member never becomes live; then a silence just above phi_threshold * max_interval
     let over_max = rng.chance(1, 8);
@@ -1202,6 +1217,40 @@ pub async fn gen_fd(sim: &mut Sim, rng: &mut Prng, stats: &mut Stats, name: &str
     let dead_grace = spec.dead_grace_ns;
     let max_iv = spec.max_interval_ns;
     sim.join(spec);
+    if wrap && !over_max {
+        let x = wid_of(&mk_id("x", 0, 6001));
+        let mut h = 0u64;
+        for _ in 0..8 {
+            h += 1;
+            sim.deliver(0, &syn_bytes("c", &[(x.clone(), h, 0, 0)]));
+            sim.tick(UNIT * 1024).await; // 2 s cadence
+        }
+        sim.eval(0);
+        sim.tick(UNIT * 512 * 40).await; // 40 s of silence
+        sim.eval(0);
+        for _ in 0..6 {
+            h += 1;
+            sim.deliver(0, &syn_bytes("c", &[(x.clone(), h, 0, 0)]));
+            sim.tick(UNIT * 128).await; // 0.25 s cadence
+            sim.eval(0);
+        }
+        sim.tick(UNIT * 512 * 90).await; // 90 s of silence: beyond 8 * 10 s
+        sim.eval(0);
+    }
+    if empty_mem && !over_max {
+        // empty membership: with a predicate only the node itself can satisfy, make it true, evaluate,
+        // make it false, evaluate: the channel must be told that nobody is left
+        stats.bump("fd_cases_membership_becomes_empty");
+        sim.set(0, "a", "x");
+        sim.eval(0);
+        if rng.chance(1, 2) {
+            sim.delete(0, "a");
+        } else {
+            sim.set(0, "a", "other");
+        }
+        sim.eval(0);
+        sim.eval(0);
+    }
     if over_max {
         let x = wid_of(&mk_id("x", 0, 6001));
         for h in 1..=30u64 {
@@ -1218,7 +1267,7 @@ pub async fn gen_fd(sim: &mut Sim, rng: &mut Prng, stats: &mut Stats, name: &str
     // node id and address, older generation), as seen after a restart
     let members = [mk_id("x", 0, 6001), mk_id("y", 3, 6002), mk_id("r", 7, 6000)];
     let wids: Vec<WId> = members.iter().map(wid_of).collect();
-    let mut hb = [if over_max { 30u64 } else { 0u64 }, 0u64, 0u64];
+    let mut hb = [if over_max { 30u64 } else if wrap { 14u64 } else { 0u64 }, 0u64, 0u64];
     let steady = rng.chance(1, 3);
     let steady_dt = UNIT * *rng.pick(&[16u64, 64, 256]);
     let nops = rng.range(8, 60);
@@ -1650,6 +1699,21 @@ async fn gen_conv(sim: &mut Sim, rng: &mut Prng, stats: &mut Stats, name: &str) 
         sim.tick(kv_grace + 1).await;
         sim.gc(o);
         sim.set(o, "after", "x");
+    }
+    if rng.chance(1, 6) && sim.nodes.len() >= 2 {
+        // the owner's highest version is a tombstone that it collects before a replica caught up:
+        // only a SetMaxVersion can bring the replica to the owner's max version
+        stats.bump("conv_cases_top_tombstone_collected");
+        let o = rng.below(sim.nodes.len() as u64) as usize;
+        let r = (o + 1 + rng.below(sim.nodes.len() as u64 - 1) as usize) % sim.nodes.len();
+        sim.set(o, "t1", "x");
+        sim.set(o, "t2", "y");
+        if rng.chance(1, 2) {
+            full_handshake(sim, r, o);
+        }
+        sim.delete(o, "t2");
+        sim.tick(kv_grace + 1).await;
+        sim.gc(o);
     }
     let nops = rng.range(8, 45);
     for _ in 0..nops {
